@@ -141,7 +141,7 @@ func equalInt64s(a, b []int64) bool {
 
 type famStats struct {
 	probesPresent, probesAbsent, keysInSeveralFiles, maxFilesPerKey, filesChecked, loads, readersFound int
-	filesSkippedByRange                                                                                int
+	filesSkippedByRange, emptyKeysKept, emptyKeysDropped                                               int
 	ok                                                                                                 bool
 }
 
@@ -401,8 +401,29 @@ func verifySnapshot(cc *caseCtx, snap version.Snapshot, dir string, levels int, 
 				byKey[e.key] = append(byKey[e.key], string(e.value))
 			}
 		}
-		if len(byKey) != len(model.values) {
-			bad("C15/version-keyset-differs", "the files of the version hold %d distinct keys, %d were written", len(byKey), len(model.values))
+		// a key whose values were all empty may be dropped by a compaction (compactFlusher.Add skips an empty
+		// merged value, the stream writer path keeps it as an empty value); every other key must be in a file
+		for k, want := range model.values {
+			_, have := byKey[k]
+			switch {
+			case len(want) == 0 && model.compacted:
+				if have {
+					st.emptyKeysKept++
+				} else {
+					st.emptyKeysDropped++
+				}
+			case !have:
+				bad("C15/version-keyset-differs", "key %d (%d values written) is in no file of the version", k, len(want))
+			}
+			if !st.ok {
+				break
+			}
+		}
+		for k := range byKey {
+			if _, ok := model.values[k]; !ok {
+				bad("C15/version-holds-foreign-key", "the files of the version hold key %d which was never written", k)
+				break
+			}
 		}
 		for k, want := range model.values {
 			if !equalStrings(sortedCopy(want), sortedCopy(byKey[k])) {
@@ -422,7 +443,10 @@ func fileSizeOf(fi os.FileInfo) interface{} {
 }
 
 // flushOne writes one flush through the real flusher and returns the number of the new file.
-func flushOne(cc *caseCtx, fam kv.Family, levels int, entries []entry, o writeOpts) (table.FileNumber, writeStats, bool) {
+// A flush whose values are ALL empty stores nothing: lindb's convention is "empty value = nothing to store"
+// (storeFlusher.Commit abandons a builder without value bytes, compactFlusher.Add skips empty values);
+// for such a flush (expectNone) the version must not change.
+func flushOne(cc *caseCtx, fam kv.Family, levels int, entries []entry, o writeOpts, expectNone bool) (table.FileNumber, writeStats, bool) {
 	before := map[table.FileNumber]bool{}
 	s0 := fam.GetSnapshot()
 	for _, m := range metasOf(s0.GetCurrent(), levels) {
@@ -450,6 +474,13 @@ func flushOne(cc *caseCtx, fam kv.Family, levels int, entries []entry, o writeOp
 		if !before[m.number] {
 			added = append(added, m)
 		}
+	}
+	if expectNone {
+		if len(added) != 0 {
+			cc.fail("C15/flush-of-only-empty-values-added-file", "%s: a flush of %d keys with only empty values added %d files to the version", o.prefix, len(entries), len(added))
+			return 0, ws, false
+		}
+		return 0, ws, true
 	}
 	if len(added) != 1 {
 		cc.fail("C15/flush-file-count-wrong", "%s: a committed flush of %d keys added %d files to the version", o.prefix, len(entries), len(added))
@@ -483,11 +514,9 @@ func runStoreCase(cc *caseCtx) {
 		maxFileSize = uint32(32 << rnd.Intn(10))
 	}
 	inject := rnd.Intn(3) == 0
-	mode := int32(1)
-	if maxFileSize > 0 {
-		// output files roll over: see the SR cases for stream writers across a roll-over
-		mode = 0
-	}
+	// how the compaction merger writes: Add only / alternating / the one stream writer taken at creation;
+	// combined with a small max file size the output rolls over to further files under each of them
+	mode := int32(rnd.Intn(3))
 	if cc.kind == "SR" {
 		// compaction whose output rolls over to further files while the merger writes through the one
 		// stream writer it took at creation, like lindb's own mergers
@@ -544,6 +573,8 @@ func runStoreCase(cc *caseCtx) {
 		agg.loads += s.loads
 		agg.readersFound += s.readersFound
 		agg.filesSkippedByRange += s.filesSkippedByRange
+		agg.emptyKeysKept += s.emptyKeysKept
+		agg.emptyKeysDropped += s.emptyKeysDropped
 		if s.maxFilesPerKey > agg.maxFilesPerKey {
 			agg.maxFilesPerKey = s.maxFilesPerKey
 		}
@@ -559,11 +590,18 @@ func runStoreCase(cc *caseCtx) {
 			salt := rnd.Uint64()
 			var es []entry
 			nonEmpty := false
+			allEmpty := rnd.Intn(15) == 0
 			for _, k := range ks {
 				var val []byte
-				if framed {
-					val = frame(fillValue(salt, k, rnd.Intn(40)))
-				} else {
+				switch {
+				case allEmpty:
+					val = fillValue(salt, k, 0)
+				case framed:
+					// an empty value is a sequence of zero frames
+					if rnd.Intn(6) > 0 {
+						val = frame(fillValue(salt, k, rnd.Intn(40)))
+					}
+				default:
 					sz := rnd.Intn(60)
 					if rnd.Intn(4) == 0 {
 						sz = 0
@@ -573,14 +611,15 @@ func runStoreCase(cc *caseCtx) {
 				nonEmpty = nonEmpty || len(val) > 0
 				es = append(es, entry{k, val})
 			}
-			if !nonEmpty {
-				// a flush of only empty values is a case of its own (runEmptyFlushCase)
-				es[0].value = fillValue(salt, es[0].key, 1+rnd.Intn(9))
-			}
-			num, _, ok := flushOne(cc, fam, levels, es, writeOpts{mode: writeModes[rnd.Intn(len(writeModes))], inject: inject,
-				prefix: fmt.Sprintf("%s flush %d", phase, i)})
+			num, _, ok := flushOne(cc, fam, levels, es, writeOpts{mode: writeModes[rnd.Intn(len(writeModes))], inject: inject && nonEmpty,
+				prefix: fmt.Sprintf("%s flush %d", phase, i)}, !nonEmpty)
 			if !ok {
 				return false
+			}
+			if !nonEmpty {
+				// nothing was flushed: the model does not change
+				cc.r.count("flushes_of_only_empty_values_modelled_as_nothing", 1)
+				continue
 			}
 			flushes++
 			model.files = append(model.files, fileModel{num, es})
@@ -673,6 +712,8 @@ func runStoreCase(cc *caseCtx) {
 	r.count("store_loads", agg.loads)
 	r.count("store_readers_found", agg.readersFound)
 	r.count("store_files_outside_key_range_skipped", agg.filesSkippedByRange)
+	r.count("compacted_keys_with_only_empty_values_kept_as_empty", agg.emptyKeysKept)
+	r.count("compacted_keys_with_only_empty_values_dropped", agg.emptyKeysDropped)
 	r.count(fmt.Sprintf("stores_max_files_per_key_%02d", agg.maxFilesPerKey), 1)
 	if agg.ok && agg.probesPresent > 0 && agg.probesAbsent > 0 {
 		r.nontrivial("S/" + hashKeyOf(cc.idx, nFlush, pattern, nFlush2, compact1, compact2, reopen, len(model.values), flushes))
@@ -680,10 +721,10 @@ func runStoreCase(cc *caseCtx) {
 	r.sample(cc.witness(map[string]interface{}{"probes_present": agg.probesPresent, "probes_absent": agg.probesAbsent, "max_files_per_key": agg.maxFilesPerKey}))
 }
 
-// runEmptyFlushCase: a flush whose values are all empty. The table builder can hold such a table
-// (the table cases prove it), the flusher decides by byte size whether there is anything to commit.
+// runEmptyFlushCase: a flush whose values are all empty stores nothing (lindb's convention "empty value =
+// nothing to store"); the version must stay as it was and later flushes must work.
 func runEmptyFlushCase(cc *caseCtx) {
-	cc.desc = map[string]interface{}{"edge": "flush of keys with only empty values"}
+	cc.desc = map[string]interface{}{"edge": "flush of keys with only empty values, then a normal flush"}
 	fmt.Printf("CASE SE %d\n", cc.idx)
 	name := filepath.Join(cc.dir, fmt.Sprintf("store-empty-%d", cc.idx))
 	defer os.RemoveAll(name)
@@ -700,38 +741,24 @@ func runEmptyFlushCase(cc *caseCtx) {
 			cc.fail("C15/store-open-error", "%v", err)
 			return
 		}
-		keys := []uint32{3, 70000, maxU32}
-		fl := fam.NewFlusher()
-		for _, k := range keys {
-			if err := fl.Add(k, nil); err != nil {
-				cc.fail("C15/add-error-on-ascending-key", "flusher.Add(%d, empty): %v", k, err)
-			}
-		}
-		err = fl.Commit()
-		fl.Release()
-		if err != nil {
-			cc.fail("C15/flush-commit-error", "Commit of a flush with only empty values: %v", err)
+		model := &familyModel{values: map[uint32][]string{}}
+		empties := []entry{{3, nil}, {70000, []byte{}}, {maxU32, nil}}
+		if _, _, ok := flushOne(cc, fam, 2, empties, writeOpts{mode: "mixed", prefix: "all-empty flush"}, true); !ok {
 			return
+		}
+		cc.r.count("flushes_of_only_empty_values_modelled_as_nothing", 1)
+		es := []entry{{3, nil}, {4, []byte("x")}, {maxU32, []byte{}}}
+		num, _, ok := flushOne(cc, fam, 2, es, writeOpts{mode: "mixed", prefix: "flush with some empty values"}, false)
+		if !ok {
+			return
+		}
+		model.files = append(model.files, fileModel{num, es})
+		for _, e := range es {
+			model.values[e.key] = append(model.values[e.key], string(e.value))
 		}
 		snap := fam.GetSnapshot()
 		defer snap.Close()
-		files := snap.GetCurrent().GetAllFiles()
-		calls := 0
-		for _, k := range keys {
-			_ = snap.Load(k, func(value []byte) error {
-				calls++
-				if len(value) != 0 {
-					cc.fail("C15/load-wrong-bytes", "Load(%d) delivered %d bytes for an empty value", k, len(value))
-				}
-				return nil
-			})
-		}
-		cc.r.count("flushes_of_only_empty_values", 1)
-		if len(files) != 1 || calls != len(keys) {
-			cc.failW("C15/flusher-drops-table-of-only-empty-values", map[string]interface{}{"keys": keys},
-				"a committed flush of %d keys with empty values left %d files in the version; Load found %d of the %d keys (Commit returned nil)",
-				len(keys), len(files), calls, len(keys))
-		}
+		verifySnapshot(cc, snap, filepath.Join(name, "f"), 2, model, "after an all-empty and a partly empty flush")
 	})
 	cc.r.eval(1)
 }
